@@ -573,7 +573,7 @@ func c01Handler(c *report.Ctx, n, t int, mixed bool, depth int) {
 func c01() *report.Check {
 	return &report.Check{
 		Level: "model_checking",
-		Rule:  "object layer: all sequences over {valid share of keyper i for A / for B, share for B labelled A, share from another eon key set, repeats} on the real EpochKG until both keys exist plus two steps, merged on (ordered senders, key bytes); handler layer: all sequences of share/keys messages (valid, with a wrong share, wrong key, re-deliveries) through the real combined validator and handlers over minipg, merged on the share and key tables. Oracle: key present iff t distinct valid shares (or, handler layer, an accepted keys message); key equals master*H1(id), verifies, decrypts; invalid/duplicate steps change nothing. Classes = kinds of transition per layer and (n,t)",
+		Rule:  "object layer: all sequences over {valid share of keyper i for A / for B, share for B labelled A, share from another eon key set, repeats} on the real EpochKG until both keys exist plus two steps, merged on (ordered senders, key bytes); handler layer: all sequences of share/keys messages (valid, with one wrong share, with two wrong shares whose errors cancel in the sum, wrong key, re-deliveries) through the real combined validator and handlers over minipg, merged on the share and key tables. Oracle: key present iff t distinct valid shares (or, handler layer, an accepted keys message); key equals master*H1(id), verifies, decrypts; invalid/duplicate steps change nothing. Classes = kinds of transition per layer and (n,t)",
 		Assumptions: []string{
 			"shcrypto/puredkg (shlib) are trusted primitives; the expected key is computed from the known master secret, not by interpolation",
 			"handler layer: 'key stored as soon as t valid shares are held' is demanded only when all senders use the same identity list (what honest keypers triggered for the same identities do); with mixed lists only the safety direction is demanded",
